@@ -10,6 +10,11 @@ state: run(crash before write k) for EVERY k in 0..W-1 (W = number of writes an 
 run-to-completion.  Breadth-first search over distinct states up to `crashes` successive crashes; from every reached state a final
 uninterrupted resume is executed and checked.  x requested output subsets x page-id sets (ids with dots / extension substrings).
 
+Line-crop sink: jpg files, or (shards with 'lmdb') an LMDB environment (OUTPUT_LINE_PATH containing 'lmdb').  There the unit of writing is the
+write TRANSACTION: lmdb.open / lmdb.Environment are wrapped, the start of every write transaction under the output folders is a kill point like
+the file writes, the state of the environment is the set of its committed records (key -> bytes), and environments a run leaves open are closed
+as the end of the process would close them (what was handed over but not committed is lost).
+
 Oracle: final tree == tree of one uninterrupted run; main() returns normally (also when nothing is left to do); a page that was
 complete before a run is not processed again (no writes for it, no "Processing <id>").
 """
@@ -166,9 +171,9 @@ class World:
         res = {'killed': False, 'error': None, 'lmdb_kill': False}
 
         class Env:
-            def __init__(self, path, *a, **kw):
-                self._path = str(path)
-                self._env = real_env(path, *a, **kw)
+            def __init__(self, *a, **kw):
+                self._path = str(kw['path'] if 'path' in kw else a[0])
+                self._env = real_env(*a, **kw)
                 envs.append(weakref.ref(self))      # the tool decides how long an environment lives (it may rely on it being closed when dropped)
 
             def begin(self, *a, **kw):
